@@ -9,6 +9,7 @@
 -/
 import KiraModel.Num
 import KiraModel.Model.Fault
+import KiraModel.Model.UnitTypes
 
 namespace K
 
@@ -57,13 +58,8 @@ end positions
 
 /-! ### the transport (pure `usize` arithmetic) -/
 
-/-- mirrors: sound/transport.rs::Transport -/
-structure Transport where
-  position : Nat
-  /-- start and (exclusive) end frame of the loop -/
-  loopRegion : Option (Nat × Nat)
-  playing : Bool
-deriving DecidableEq, Repr
+/- `structure Transport` (mirrors sound/transport.rs::Transport) lives in Model/UnitTypes.lean, so that the generated
+   `Gen.transport*` (GenFn.lean) can range over it; its fields are checked against the Rust declaration by the translator. -/
 
 /-- mirrors: sound/transport.rs::Transport::increment_position, sound/transport.rs::Transport::seek_to (the forward wrap):
     `if p >= le { p = ls + (p - ls) % (le - ls) }` — the closed form of the loop
